@@ -40,6 +40,27 @@ CHECKS = {
              'documents\' own key alphabet, and wrapped with an unrelated sibling sequence; results (or failure classes) must correspond.',
         note='Relation between runs of the implementation; documented exception for an explicit !del stage root with an empty result.',
         design='4/C05'),
+    'C08': dict(
+        technique='property-based differential testing (Hypothesis): path-existence predicate over the config built so far + recursive-update fold, for !notnew documents and generated command-line overrides',
+        text='Base configs with derived overriding documents carrying !notnew/!new on arbitrary nodes, and command-line strings built from existing '
+             'or mutated paths (typos, bad indices, extra components); success is required exactly when every restricted path exists, the result '
+             'must equal the fold (frame condition by full comparison), failures must be MergeError naming a missing path.',
+        note='Command-line values limited to scalars and flow lists; identifier keys.',
+        design='4/C08'),
+    'C14': dict(
+        technique='property-based differential testing (Hypothesis): AST-level fold with !required as opaque leaf over generated override/delete histories, recorder log for "nothing evaluated"',
+        text='Trees with !required at top level, in nested mappings, list elements and call/bind arguments, and 0-3 derived later stages that '
+             'leave/override/delete them; the build must fail with the ValueError listing exactly the surviving paths and with an empty call log, '
+             'and succeed otherwise.',
+        note='Later stages never put a string onto a function node and keep call arguments string-keyed.',
+        design='4/C14'),
+    'C16': dict(
+        technique='property-based differential testing (Hypothesis): list/move model over plain data applied in document order + fold frame, over generated operator histories',
+        text='Histories of 1-3 stages with !append/!extend/!prev at unrelated paths (nested, sources inside lists, missing and non-list targets) '
+             'against a plain-data model; every other path must equal the fold. One open known finding (append/extend target addressed through a '
+             'list index) is attributed by a counterfactual re-run without those operators.',
+        note='!prev destinations fresh or scalar; !append in a first document not generated.',
+        design='4/C16'),
     'C15': dict(
         technique='property-based metamorphic testing (Hypothesis): five relations (determinism, idempotence, empty-neutral, key permutation, flag-neutral) per generated sequence',
         text='Each generated sequence over priority/!del/!merge tags is rebuilt twice, with the last document repeated, with {} inserted at every '
